@@ -135,6 +135,7 @@ type Report struct {
 	planned   int
 	MinConcl  float64 // floor: fraction of planned cases that must be conclusive
 	sampleCap int
+	rejects   map[string]int
 }
 
 type unk struct {
@@ -188,6 +189,15 @@ func (r *Report) Add(cases []Case, outs []Outcome) {
 				}
 				u.count++
 			}
+		case Rejected:
+			key := o.Note
+			if len(key) > 90 {
+				key = key[:90]
+			}
+			if r.rejects == nil {
+				r.rejects = map[string]int{}
+			}
+			r.rejects[key]++
 		case Inconclusive:
 			key := o.Note
 			if len(key) > 80 {
@@ -263,7 +273,10 @@ func (r *Report) Finish() int {
 		"worker_restarts":     env.Pool.Restarts,
 	}
 	if len(r.inconcl) > 0 {
-		cov["inconclusive_reasons"] = r.inconcl
+		cov["inconclusive_reasons"] = topN(r.inconcl, 25)
+	}
+	if len(r.rejects) > 0 {
+		cov["rejected_reasons"] = topN(r.rejects, 25)
 	}
 	if len(vlist) > 0 {
 		cov["violations_unlisted"] = vlist
@@ -370,4 +383,34 @@ func Replay(env *Env, fs *Findings, path string) int {
 		return 2
 	}
 	return code
+}
+
+func topN(m map[string]int, n int) map[string]int {
+	type kv struct {
+		k string
+		v int
+	}
+	var xs []kv
+	for k, v := range m {
+		xs = append(xs, kv{k, v})
+	}
+	sort.Slice(xs, func(i, j int) bool {
+		if xs[i].v != xs[j].v {
+			return xs[i].v > xs[j].v
+		}
+		return xs[i].k < xs[j].k
+	})
+	out := map[string]int{}
+	rest := 0
+	for i, x := range xs {
+		if i < n {
+			out[x.k] = x.v
+		} else {
+			rest += x.v
+		}
+	}
+	if rest > 0 {
+		out["(other)"] = rest
+	}
+	return out
 }
